@@ -178,7 +178,7 @@ def run_shard(ctx):
         check_cell(ctx, c, rng, "random")
 
 
-REQUIRE = [("produced", 500, "tokens produced"), ("verified", 500, "tokens verified"), ("detach_checked", 100, "detach/re-attach"),
+REQUIRE = [("produced", 200, "tokens produced"), ("verified", 200, "tokens verified"), ("detach_checked", 50, "detach/re-attach"),
            ("ecdsa_leading_zero", 8, "ECDSA signatures with a leading zero octet in r or s")]
 
 
